@@ -280,7 +280,8 @@ class FnResult:
         self.file = ""
 
 
-def verify_function(lib, cls, fname, fnode, con, timeout_ms=10000, want_models=True, only=None):
+def verify_function(lib, cls, fname, fnode, con, timeout_ms=10000, want_models=True, only=None, shard=None,
+                    carve=None):
     """callee side: returns FnResult with every obligation decided."""
     t0 = time.time()
     res = FnResult(cls, fname)
@@ -333,16 +334,80 @@ def verify_function(lib, cls, fname, fnode, con, timeout_ms=10000, want_models=T
         res.unsupported = str(e)
         res.seconds = time.time() - t0
         return res
-    # decide obligations
+    # decide obligations: all goals of one path state are first tried as one conjunction
+    if only:
+        obligs = [ob for ob in obligs if any(s in ob.name for s in only)]
+    groups = {}
+    order = []
     for ob in obligs:
-        if only and not any(s in ob.name for s in only):
-            continue
-        r = discharge(ob, timeout_ms, want_models, lib)
-        res.obligations.append(r)
+        key = (id(ob.state), len(ob.pc), len(ob.hyps))
+        if key not in groups:
+            groups[key] = []
+            order.append(key)
+        groups[key].append(ob)
+    if shard is not None:
+        # split the work of one function over several processes: obligations are dealt out round-robin
+        # inside each path-state group so that every shard gets a share of every (possibly hard) group
+        si, sn = shard
+        keep = set()
+        for key in order:
+            for j, ob in enumerate(groups[key]):
+                if j % sn == si:
+                    keep.add(id(ob))
+        obligs = [ob for ob in obligs if id(ob) in keep]
+        for key in order:
+            groups[key] = [ob for ob in groups[key] if id(ob) in keep]
+    decided = {}
+    carve = carve or {}
+    carved = {}
+    for ob in obligs:
+        nn = norm_name(ob.name)
+        if nn in carve:
+            carved[id(ob)] = carve[nn]
+    for key in order:
+        grp = groups[key]
+        simple = [ob for ob in grp if _is_simple_goal(ob) and id(ob) not in carved]
+        if len(simple) >= 3:
+            tb = time.time()
+            r = discharge_batch(simple, timeout_ms, lib)
+            if r:
+                dt = (time.time() - tb) / len(simple)
+                for ob in simple:
+                    decided[id(ob)] = {"name": ob.name, "kind": ob.kind, "status": "proved", "seconds": round(dt, 4),
+                                       "lineno": ob.lineno, "props": list(ob.props), "trace": ob.trace[-12:],
+                                       "reason": "batch", "ninst": 0}
+    for ob in obligs:
+        if id(ob) in decided:
+            res.obligations.append(decided[id(ob)])
+        elif id(ob) in carved:
+            # known finding with characteristic condition chi: the obligation must hold outside chi;
+            # inside chi we only record whether the finding is still present
+            chi_name = carved[id(ob)]
+            chi = lib.chi(cls, chi_name, ctx.old, ctx.args)
+            if chi is None:
+                inside = discharge(ob, timeout_ms, want_models, lib)
+                d = dict(inside)
+                d["status"] = "carved"
+                d["inside_chi"] = inside["status"]
+                d["chi"] = chi_name
+            else:
+                ob_out = _with_hyp(ob, z3.Not(chi))
+                d = discharge(ob_out, timeout_ms, want_models, lib)
+                ob_in = _with_hyp(ob, chi)
+                inside = discharge(ob_in, timeout_ms, want_models, lib)
+                d["inside_chi"] = inside["status"]
+                d["chi"] = chi_name
+                if "model" in inside:
+                    d["chi_model"] = inside["model"]
+                if d["status"] == "proved":
+                    d["status"] = "carved"
+            res.obligations.append(d)
+        else:
+            res.obligations.append(discharge(ob, timeout_ms, want_models, lib))
     # canary
     canary = {"name": "canary.normal-exit-reachable", "kind": "canary", "status": "proved", "props": [],
               "seconds": 0.0, "lineno": fnode.lineno}
-    if getattr(con, "has_normal_exit", True):
+    if getattr(con, "has_normal_exit", True) and (shard is None or shard[0] == 0):
         reach = False
         weak = False
         for o in outcomes:
@@ -360,7 +425,8 @@ def verify_function(lib, cls, fname, fnode, con, timeout_ms=10000, want_models=T
             canary["reason"] = "a normal exit path is satisfiable after index-set instantiation (model not validated)"
         else:
             canary["status"] = "vacuous"
-    res.obligations.append(canary)
+    if shard is None or shard[0] == 0:
+        res.obligations.append(canary)
     res.seconds = time.time() - t0
     return res
 
@@ -464,6 +530,39 @@ def _post_item(ctx, pc, it, prefix, lineno, con):
         ctx.oblige("%s.post.%s" % (prefix, it.name), st, [r], "post", lineno, it.props or con.props)
     else:
         raise TypeError(it)
+
+
+import re as _re
+
+
+def norm_name(n):
+    n = _re.sub(r"exit\d+\.", "", n)
+    n = _re.sub(r"@L\d+", "", n)
+    return n
+
+
+def _with_hyp(ob, h):
+    import copy
+    ob2 = copy.copy(ob)
+    ob2.pc = list(ob.pc) + [h]
+    return ob2
+
+
+def _is_simple_goal(ob):
+    g = ob.goals[0]
+    return len(ob.goals) == 1 and not isinstance(g, NotClause) and not logic.is_exists(g) \
+        and not isinstance(g, logic.ForallExists)
+
+
+def discharge_batch(obs, timeout_ms, lib):
+    """one query for the conjunction of the goals of several obligations of the same path state."""
+    hyps = list(obs[0].pc) + list(obs[0].hyps)
+    negs = []
+    for ob in obs:
+        q, f = logic.negate_clause(ob.goals[0])
+        negs.append(logic.conj(q))
+    r = logic.solve(hyps, [z3.Or(*negs)], timeout_ms=timeout_ms, want_model=False, len_terms=())
+    return r.status == "proved"
 
 
 def discharge(ob, timeout_ms, want_models, lib):
